@@ -60,6 +60,7 @@ func main() {
 	variantFlag := flag.String("variants", "", "comma separated build variants (default native; thorough: native,go118,386)")
 	verbose := flag.Bool("v", false, "print every obligation")
 	dump := flag.String("dump", "", "debug: print the SSA of rel/pkg:Func (e.g. :Dials.monitor, transform:Transformer.ReverseTranslate)")
+	allProps := flag.Bool("all", false, "development aid: run every property's rules on one load (native), print non-discharged obligations only")
 	genAnchorsTo := flag.String("gen-anchors", "", "write the structural fingerprints of the current tree (rename tolerance) to this file and exit")
 	flag.Parse()
 	if *genAnchorsTo != "" {
@@ -75,6 +76,48 @@ func main() {
 		if err := writeAnchors(w, *genAnchorsTo); err != nil {
 			fmt.Println(err)
 			os.Exit(2)
+		}
+		os.Exit(0)
+	}
+	if *allProps {
+		// development aid (sweeps): every property's rules on ONE load of the tree; prints the non-discharged
+		// obligations, writes no evidence, never prints VIOLATION
+		w, err := loadVariant(*repo, "native", nil)
+		if err != nil {
+			fmt.Println("LOAD-ERROR", err)
+			os.Exit(2)
+		}
+		ids := make([]string, 0, len(props))
+		for id := range props {
+			ids = append(ids, id)
+		}
+		sort.Strings(ids)
+		for _, id := range ids {
+			func() {
+				defer func() {
+					if r := recover(); r != nil {
+						fmt.Printf("UNDECIDED %s/analysis: checker panic: %v\n", id, r)
+					}
+				}()
+				c := newCtx(id, "quick", w)
+				props[id].run(c)
+				for rid, min := range c.ruleMin {
+					if c.ruleCnt[rid] < min {
+						c.add(rid, "instance-count", 0, Undecided, true, 0, "rule matched %d instances, fewer than the %d confirmed by hand (vacuity guard)", c.ruleCnt[rid], min)
+					}
+				}
+				for _, o := range c.Obs {
+					if o.Verdict != OK {
+						fmt.Printf("%s %s at %s: %s\n", o.Verdict, o.ID, o.Site, o.Detail)
+					}
+				}
+			}()
+		}
+		for _, n := range foldAssumptions() {
+			fmt.Println("NOTE", n)
+		}
+		for _, n := range renameAssumptions() {
+			fmt.Println("NOTE", n)
 		}
 		os.Exit(0)
 	}
